@@ -259,7 +259,7 @@ Proof.
 Qed.
 
 (* ---- per-object storage: dirtyStorage/originStorage + their index maps -------------------- *)
-Definition DW (o : obj) : Prop := forall k i, o_didx o !! k = Some i -> exists v, o_dirty o !! i = Some (k, v).
+Definition DW (o : obj) : Prop := forall k i, o_didx o !! k = Some i <-> exists v, o_dirty o !! i = Some (k, v).
 Definition OW (p : pers) (x : addr) (o : obj) : Prop :=
   forall k i, o_oidx o !! k = Some i -> o_origin o !! i = Some (k, pslot p x k).
 Definition oget (p : pers) (x : addr) (o : obj) (k : key) : Z :=
@@ -285,7 +285,7 @@ Lemma obj_getstate_spec p x o k : DW o -> OW p x o ->
   exists l m, obj_getstate p x o k = Some (oget p x o k, set_origin o l m) /\ OW p x (set_origin o l m).
 Proof.
   intros HD HO. unfold obj_getstate, oget. destruct (o_didx o !! k) as [i|] eqn:Hk.
-  - destruct (HD k i Hk) as [v Hv]. rewrite Hv. simpl.
+  - destruct (proj1 (HD k i) Hk) as [v Hv]. rewrite Hv. simpl.
     exists (o_origin o), (o_oidx o). split; [destruct o; reflexivity|exact HO].
   - apply obj_committed_spec. exact HO.
 Qed.
@@ -295,28 +295,41 @@ Lemma obj_setstate_spec p x o k v : DW o ->
     forall k', oget p x (set_dirty o l m) k' = if decide (k = k') then v else oget p x o k'.
 Proof.
   intros HD. unfold obj_setstate. destruct (o_didx o !! k) as [i|] eqn:Hk.
-  - destruct (HD k i Hk) as [v0 Hv0]. rewrite Hv0. simpl.
+  - destruct (proj1 (HD k i) Hk) as [v0 Hv0]. rewrite Hv0. simpl.
     pose proof (lookup_lt_Some _ _ _ Hv0) as Hlt.
     eexists _, _. split; [reflexivity|]. split.
-    + intros k' j Hk'. simpl in *. destruct (decide (i = j)) as [->|Hij].
-      * destruct (HD k' j Hk') as [v' Hv']. rewrite Hv0 in Hv'. inversion Hv'; subst.
-        rewrite list_lookup_insert by done. eauto.
-      * rewrite list_lookup_insert_ne by done. apply HD. exact Hk'.
+    + intros k' j. simpl. rewrite (HD k' j). destruct (decide (i = j)) as [->|Hij].
+      * rewrite list_lookup_insert by done. split; intros [v' Hv'].
+        -- rewrite Hv0 in Hv'. inversion Hv'; subst. eauto.
+        -- inversion Hv'; subst. eauto.
+      * rewrite list_lookup_insert_ne by done. reflexivity.
     + intros k'. unfold oget; simpl. destruct (decide (k = k')) as [<-|Hne].
       * rewrite Hk. rewrite list_lookup_insert by done. reflexivity.
       * destruct (o_didx o !! k') as [j|] eqn:Hk'; [|reflexivity].
-        assert (i <> j). { intros ->. destruct (HD k' j Hk') as [v' Hv']. rewrite Hv0 in Hv'. inversion Hv'; subst; done. }
+        assert (i <> j). { intros ->. destruct (proj1 (HD k' j) Hk') as [v' Hv']. rewrite Hv0 in Hv'. inversion Hv'; subst; done. }
         rewrite list_lookup_insert_ne by done. reflexivity.
   - eexists _, _. split; [reflexivity|]. split.
-    + intros k' j Hk'. simpl in *. destruct (decide (k = k')) as [<-|Hne].
-      * rewrite lookup_insert in Hk'. inversion Hk'; subst. rewrite lookup_app_r by lia.
-        rewrite Nat.sub_diag. simpl. eauto.
-      * rewrite lookup_insert_ne in Hk' by done. destruct (HD k' j Hk') as [v' Hv']. exists v'.
-        rewrite lookup_app_l; [done|]. eapply lookup_lt_Some; eauto.
+    + intros k' j. simpl. destruct (decide (k = k')) as [<-|Hne].
+      * rewrite lookup_insert. split.
+        -- intros [= <-]. exists v. rewrite lookup_app_r by lia. rewrite Nat.sub_diag. reflexivity.
+        -- intros [v' Hv']. destruct (decide (j < length (o_dirty o))%nat) as [Hlt|Hge].
+           ++ rewrite lookup_app_l in Hv' by done.
+              assert (o_didx o !! k = Some j) as Hc by (apply HD; eauto). congruence.
+           ++ rewrite lookup_app_r in Hv' by lia.
+              destruct (j - length (o_dirty o))%nat eqn:Hd; simpl in Hv'; [f_equal; lia|].
+              rewrite lookup_nil in Hv'. done.
+      * rewrite lookup_insert_ne by done. rewrite (HD k' j). split; intros [v' Hv'].
+        -- exists v'. rewrite lookup_app_l; [done|]. eapply lookup_lt_Some; eauto.
+        -- destruct (decide (j < length (o_dirty o))%nat) as [Hlt|Hge].
+           ++ rewrite lookup_app_l in Hv' by done. eauto.
+           ++ rewrite lookup_app_r in Hv' by lia.
+              destruct (j - length (o_dirty o))%nat eqn:Hd; simpl in Hv'.
+              ** inversion Hv'; subst. done.
+              ** rewrite lookup_nil in Hv'. done.
     + intros k'. unfold oget; simpl. destruct (decide (k = k')) as [<-|Hne].
       * rewrite lookup_insert. rewrite lookup_app_r by lia. rewrite Nat.sub_diag. reflexivity.
       * rewrite lookup_insert_ne by done. destruct (o_didx o !! k') as [j|] eqn:Hk'; [|reflexivity].
-        destruct (HD k' j Hk') as [v' Hv']. rewrite lookup_app_l by (eapply lookup_lt_Some; eauto). reflexivity.
+        destruct (proj1 (HD k' j) Hk') as [v' Hv']. rewrite lookup_app_l by (eapply lookup_lt_Some; eauto). reflexivity.
 Qed.
 
 (* ---- composite steps --------------------------------------------------------------------- *)
@@ -450,7 +463,7 @@ Proof.
 Qed.
 
 Lemma arel_set_origin p x o c l m : OW p x (set_origin o l m) -> arel p x o c -> arel p x (set_origin o l m) c.
-Proof. intros HO (A & B & C & D & E & F & G & H & I). repeat split; try assumption. Qed.
+Proof. intros HO (A & B & C & D & E & F & G & H & I). exact (conj A (conj B (conj C (conj D (conj E (conj F (conj G (conj HO I)))))))). Qed.
 
 (* ---- invariant --------------------------------------------------------------------------- *)
 Definition mono (l : list (Z * nat)) : Prop :=
@@ -461,10 +474,14 @@ Definition SR (a : astate) (s : sstate) : Prop :=
              sn.2 = sundo_list (rev (drop r.2 (a_entries a))) (cur s)) (a_revs a) (snaps s)
   /\ mono (a_revs a).
 
+(* no empty account is persisted (EIP-161 state) *)
+Definition NE (p : pers) : Prop := forall x o, load p x = Some o -> obj_empty o = false.
+
 Record Inv (a : astate) (s : sstate) : Prop := {
   i_wo : WO a; i_jok : JOK a; i_nr : NR (a_pers a); i_crel : crel a (cur s);
   i_id : a_nextid a = nextid s; i_sr : SR a s;
-  i_ent : Forall (entry_ok (a_pers a)) (a_entries a) }.
+  i_ent : Forall (entry_ok (a_pers a)) (a_entries a);
+  i_ne : NE (a_pers a) }.
 
 Lemma sundo_list_app l1 l2 c : sundo_list (l1 ++ l2) c = sundo_list l2 (sundo_list l1 c).
 Proof. unfold sundo_list. apply fold_left_app. Qed.
@@ -484,10 +501,11 @@ Proof. destruct c; reflexivity. Qed.
 
 Lemma arel_new p x : NR p -> load p x = None -> arel p x (mk_obj 0 0 0%N) (new_acct 0).
 Proof.
-  intros HN Hl. unfold arel, new_acct; simpl. repeat split; try reflexivity.
+  intros HN Hl. unfold arel, new_acct; simpl.
+  refine (conj eq_refl (conj eq_refl (conj eq_refl (conj eq_refl (conj _ (conj _ (conj _ (conj _ _)))))))).
   - intros k. unfold oget; simpl. rewrite lookup_empty. unfold sget. rewrite lookup_empty. simpl. apply HN. exact Hl.
   - intros k. unfold sget. rewrite lookup_empty. simpl. apply HN. exact Hl.
-  - intros k i Hk. simpl in Hk. rewrite lookup_empty in Hk. done.
+  - intros k i. simpl. rewrite lookup_empty. split; [done|]. intros [v Hv]. rewrite lookup_nil in Hv. done.
   - intros k i Hk. simpl in Hk. rewrite lookup_empty in Hk. done.
   - intros k. rewrite lookup_empty. done.
 Qed.
@@ -554,6 +572,7 @@ Proof.
     + exact (i_ent _ _ HI).
     + destruct Hcase as [[-> _]|(-> & _ & Hld)]; [constructor|]. constructor; [exact Hld|constructor].
     + exact Hok.
+  - rewrite Hp. exact (i_ne _ _ HI).
 Qed.
 
 Lemma so_spec a x o : WO a -> JOK a ->
@@ -592,6 +611,7 @@ Proof.
   - rewrite Hn. exact (i_id _ _ HI).
   - destruct (i_sr _ _ HI) as [HF Hm]. split; [|rewrite Hr; exact Hm]. rewrite Hr, He. exact HF.
   - rewrite Hp, He. exact (i_ent _ _ HI).
+  - rewrite Hp. exact (i_ne _ _ HI).
 Qed.
 
 (* reads *)
@@ -653,11 +673,11 @@ Qed.
 
 (* writes *)
 Lemma arel_bal p x o c b : arel p x o c -> arel p x (set_bal o b) (with_bal c b).
-Proof. intros (A & B & C & D & E & F & G & H & I). repeat split; try assumption. Qed.
+Proof. intros (A & B & C & D & E & F & G & H & I). exact (conj eq_refl (conj B (conj C (conj D (conj E (conj F (conj G (conj H I)))))))). Qed.
 Lemma arel_nonce p x o c n : arel p x o c -> arel p x (set_nonce o n) (with_nonce c n).
-Proof. intros (A & B & C & D & E & F & G & H & I). repeat split; try assumption. Qed.
+Proof. intros (A & B & C & D & E & F & G & H & I). exact (conj A (conj eq_refl (conj C (conj D (conj E (conj F (conj G (conj H I)))))))). Qed.
 Lemma arel_suic p x o c b : arel p x o c -> arel p x (set_suic o b) (with_suic c b).
-Proof. intros (A & B & C & D & E & F & G & H & I). repeat split; try assumption. Qed.
+Proof. intros (A & B & C & D & E & F & G & H & I). exact (conj A (conj B (conj C (conj eq_refl (conj E (conj F (conj G (conj H I)))))))). Qed.
 
 Lemma with_bal_undo c b : with_bal (with_bal c b) (bal c) = c.
 Proof. destruct c; reflexivity. Qed.
@@ -768,6 +788,7 @@ Proof.
   - apply (SR_extend a _ s _ [ERefund (a_refund a)]); [reflexivity|reflexivity| |exact (i_sr _ _ HI)].
     simpl. unfold sundo_list; simpl. rewrite (proj2 (i_crel _ _ HI)). apply with_refund_undo.
   - apply Forall_app. split; [exact (i_ent _ _ HI)|repeat constructor].
+  - exact (i_ne _ _ HI).
 Qed.
 
 Lemma sim_AddRefund a s g : Inv a s -> sim a s (AddRefund g).
@@ -932,6 +953,7 @@ Proof.
            destruct (i - length (a_revs a))%nat eqn:E'; simpl in H1; [|rewrite lookup_nil in H1; done].
            inversion H1; subst r1. simpl. lia.
   - exact (i_ent _ _ HI).
+  - exact (i_ne _ _ HI).
 Qed.
 
 (* ---- RevertToSnapshot -------------------------------------------------------------------- *)
@@ -1147,6 +1169,357 @@ Proof.
       assert (i2 < j)%nat. { apply lookup_lt_Some in H2. rewrite take_length in H2. lia. }
       rewrite lookup_take in H1 by lia. rewrite lookup_take in H2 by lia. eapply Hm; eauto.
   - rewrite Hp1. apply Forall_take. exact (i_ent _ _ HI).
+  - rewrite Hp1. exact (i_ne _ _ HI).
+Qed.
+
+(* ---- Finalise ---------------------------------------------------------------------------- *)
+Definition agree_at (x : addr) (p p' : pers) : Prop :=
+  p_keeper p' !! x = p_keeper p !! x /\ p_bal p' !! x = p_bal p !! x /\
+  forall k, p_cstore p' !! (x, k) = p_cstore p !! (x, k).
+Lemma agree_refl x p : agree_at x p p.
+Proof. repeat split. Qed.
+Lemma agree_trans x p1 p2 p3 : agree_at x p1 p2 -> agree_at x p2 p3 -> agree_at x p1 p3.
+Proof. intros (A & B & C) (A' & B' & C'). repeat split; [congruence|congruence|intros k; rewrite C', C; reflexivity]. Qed.
+Lemma agree_pslot x p p' k : agree_at x p p' -> pslot p' x k = pslot p x k.
+Proof. intros (_ & _ & C). unfold pslot. rewrite C. reflexivity. Qed.
+Lemma agree_load x p p' : agree_at x p p' -> load p' x = load p x.
+Proof. intros (A & B & _). unfold load, pbal. rewrite A, B. reflexivity. Qed.
+
+Lemma commit_slot_frame x o p kv :
+  p_keeper (commit_slot x o p kv) = p_keeper p /\ p_bal (commit_slot x o p kv) = p_bal p /\
+  p_codes (commit_slot x o p kv) = p_codes p /\
+  forall y k, (y, k) <> (x, kv.1) -> p_cstore (commit_slot x o p kv) !! (y, k) = p_cstore p !! (y, k).
+Proof.
+  destruct kv as [k0 v0]. unfold commit_slot. simpl.
+  destruct (v0 =? 0) eqn:Ev.
+  - destruct (o_oidx o !! k0); simpl; repeat split; intros y k Hne; rewrite lookup_delete_ne by congruence; reflexivity.
+  - destruct (o_oidx o !! k0) as [i|]; [|repeat split].
+    destruct (o_origin o !! i) as [e|]; [|repeat split].
+    destruct (e.2 =? v0); [repeat split|]. simpl. repeat split.
+    intros y k Hne. rewrite lookup_insert_ne by congruence. reflexivity.
+Qed.
+
+Lemma commit_slot_own x o p p0 k0 v0 :
+  OW p0 x o -> pslot p x k0 = pslot p0 x k0 ->
+  (v0 = 0 \/ is_Some (o_oidx o !! k0)) ->
+  pslot (commit_slot x o p (k0, v0)) x k0 = v0.
+Proof.
+  intros HO Hsame Hc. unfold commit_slot, pslot. destruct (v0 =? 0) eqn:Ev.
+  - apply Z.eqb_eq in Ev. subst. destruct (o_oidx o !! k0); simpl; rewrite lookup_delete; reflexivity.
+  - apply Z.eqb_neq in Ev. destruct Hc as [->|[i Hi]]; [done|]. rewrite Hi.
+    rewrite (HO k0 i Hi). simpl. destruct (pslot p0 x k0 =? v0) eqn:E2.
+    + apply Z.eqb_eq in E2. unfold pslot in Hsame. rewrite Hsame. exact E2.
+    + simpl. rewrite lookup_insert. reflexivity.
+Qed.
+
+Definition uniqk (l : list (key * Z)) : Prop :=
+  forall i j k v1 v2, l !! i = Some (k, v1) -> l !! j = Some (k, v2) -> i = j.
+Lemma uniqk_tail e l : uniqk (e :: l) -> uniqk l.
+Proof. intros H i j k v1 v2 H1 H2. assert (S i = S j) by (eapply H; simpl; eauto). lia. Qed.
+
+Lemma commit_fold x o p0 l : forall p,
+  OW p0 x o -> uniqk l ->
+  (forall i k v, l !! i = Some (k, v) -> pslot p x k = pslot p0 x k /\ (v = 0 \/ is_Some (o_oidx o !! k))) ->
+  let p' := fold_left (commit_slot x o) l p in
+  p_keeper p' = p_keeper p /\ p_bal p' = p_bal p /\ p_codes p' = p_codes p /\
+  (forall y k, y <> x -> p_cstore p' !! (y, k) = p_cstore p !! (y, k)) /\
+  (forall k, (exists i v, l !! i = Some (k, v) /\ pslot p' x k = v) \/
+             ((forall i v, l !! i <> Some (k, v)) /\ pslot p' x k = pslot p x k)).
+Proof.
+  induction l as [|[k0 v0] rest IH]; intros p HO Hu Hall; cbn [fold_left].
+  - repeat split. intros k. right. split; [intros i v Hc; rewrite lookup_nil in Hc; done|reflexivity].
+  - destruct (commit_slot_frame x o p (k0, v0)) as (F1 & F2 & F3 & F4). simpl in F4.
+    destruct (Hall 0%nat k0 v0 eq_refl) as [Hs0 Hc0].
+    pose proof (commit_slot_own x o p p0 k0 v0 HO Hs0 Hc0) as Hown.
+    set (p1 := commit_slot x o p (k0, v0)) in *.
+    destruct (IH p1 HO (uniqk_tail _ _ Hu)) as (G1 & G2 & G3 & G4 & G5).
+    { intros i k v Hi. destruct (Hall (S i) k v Hi) as [Hs Hc]. split; [|exact Hc].
+      rewrite <- Hs. unfold pslot. rewrite F4; [reflexivity|].
+      intros [= ->]. assert (0 = S i)%nat by (eapply Hu; simpl; eauto). lia. }
+    fold p1. split; [congruence|]. split; [congruence|]. split; [congruence|]. split.
+    { intros y k Hy. rewrite G4 by done. apply F4. congruence. }
+    intros k. destruct (G5 k) as [(i & v & Hi & Hv)|[Hno Hv]].
+    + left. exists (S i), v. split; [exact Hi|exact Hv].
+    + destruct (decide (k = k0)) as [->|Hne].
+      * left. exists 0%nat, v0. split; [reflexivity|]. rewrite Hv. exact Hown.
+      * right. split.
+        -- intros [|i] v Hc; simpl in Hc; [injection Hc as E1 E2; congruence|]. exact (Hno i v Hc).
+        -- rewrite Hv. unfold pslot. rewrite F4; [reflexivity|congruence].
+Qed.
+
+Lemma slots_cachedb_spec o : slots_cachedb o = true ->
+  forall i k v, o_dirty o !! i = Some (k, v) -> v = 0 \/ is_Some (o_oidx o !! k).
+Proof.
+  unfold slots_cachedb. rewrite forallb_forall. intros H i k v Hi.
+  assert (In (k, v) (o_dirty o)) as Hin by (apply elem_of_list_In; eapply elem_of_list_lookup_2; eauto).
+  specialize (H _ Hin). simpl in H. apply orb_prop in H. destruct H as [H|H].
+  - left. apply Z.eqb_eq. exact H.
+  - right. apply bool_decide_eq_true in H. exact H.
+Qed.
+
+Lemma commit_state_spec x o p : DW o -> OW p x o -> slots_cachedb o = true ->
+  let p' := commit_state x o p in
+  p_keeper p' = p_keeper p /\ p_bal p' = p_bal p /\ p_codes p' = p_codes p /\
+  (forall y k, y <> x -> p_cstore p' !! (y, k) = p_cstore p !! (y, k)) /\
+  (forall k, pslot p' x k = oget p x o k).
+Proof.
+  intros HD HO Hc. unfold commit_state.
+  assert (uniqk (o_dirty o)) as Hu.
+  { intros i j k v1 v2 H1 H2. assert (o_didx o !! k = Some i) as A by (apply HD; eauto).
+    assert (o_didx o !! k = Some j) as B by (apply HD; eauto). congruence. }
+  destruct (commit_fold x o p (o_dirty o) p HO Hu) as (G1 & G2 & G3 & G4 & G5).
+  { intros i k v Hi. split; [reflexivity|]. eapply slots_cachedb_spec; eauto. }
+  split; [exact G1|]. split; [exact G2|]. split; [exact G3|]. split; [exact G4|].
+  intros k. unfold oget. destruct (G5 k) as [(i & v & Hi & Hv)|[Hno Hv]].
+  - assert (o_didx o !! k = Some i) as -> by (apply HD; eauto). rewrite Hi. simpl. exact Hv.
+  - destruct (o_didx o !! k) as [i|] eqn:Hk; [|exact Hv].
+    exfalso. destruct (proj1 (HD k i) Hk) as [v Hv']. exact (Hno i v Hv').
+Qed.
+
+Lemma commit_state_frame x o p :
+  p_keeper (commit_state x o p) = p_keeper p /\ p_bal (commit_state x o p) = p_bal p /\
+  forall y k, y <> x -> p_cstore (commit_state x o p) !! (y, k) = p_cstore p !! (y, k).
+Proof.
+  unfold commit_state. generalize (o_dirty o). intros l. revert p.
+  induction l as [|kv l IH]; intros p; cbn [fold_left]; [repeat split|].
+  destruct (commit_slot_frame x o p kv) as (F1 & F2 & _ & F4). destruct (IH (commit_slot x o p kv)) as (G1 & G2 & G3).
+  split; [congruence|]. split; [congruence|]. intros y k Hy. rewrite G3 by done. apply F4. congruence.
+Qed.
+
+Lemma finalise_obj_other D p y o x : x <> y -> agree_at x p (finalise_obj D p (y, o)).
+Proof.
+  intros Hne. unfold finalise_obj. destruct (o_suic o || _).
+  - split; simpl; [rewrite lookup_delete_ne by done; reflexivity|]. split; reflexivity.
+  - destruct (bool_decide _); [|apply agree_refl].
+    destruct (commit_state_frame y o p) as (F1 & F2 & F3). split; simpl.
+    + rewrite lookup_insert_ne by done. rewrite F1. reflexivity.
+    + split; [rewrite lookup_insert_ne by done; rewrite F2; reflexivity|]. intros k. apply F3. done.
+Qed.
+
+Lemma fin_fold_absent D x : forall l p, (forall i o, l !! i <> Some (x, o)) ->
+  agree_at x p (fold_left (finalise_obj D) l p).
+Proof.
+  induction l as [|[y o] l IH]; intros p Hno; cbn [fold_left]; [apply agree_refl|].
+  eapply agree_trans; [apply (finalise_obj_other D p y o x)|apply IH].
+  - intros ->. apply (Hno 0%nat o). reflexivity.
+  - intros i o' Hc. apply (Hno (S i) o'). exact Hc.
+Qed.
+
+Lemma fin_fold_present D x o : forall l p i, uniq l -> l !! i = Some (x, o) ->
+  exists p0, agree_at x p p0 /\ agree_at x (finalise_obj D p0 (x, o)) (fold_left (finalise_obj D) l p).
+Proof.
+  induction l as [|[y oy] l IH]; intros p i Hu Hi; [rewrite lookup_nil in Hi; done|].
+  cbn [fold_left]. destruct i as [|i]; simpl in Hi.
+  - inversion Hi; subst. exists p. split; [apply agree_refl|]. apply fin_fold_absent.
+    intros j o' Hc. assert (0 = S j)%nat by (eapply Hu; simpl; eauto). lia.
+  - assert (x <> y) as Hne. { intros ->. assert (S i = 0)%nat by (eapply Hu; simpl; eauto). lia. }
+    destruct (IH (finalise_obj D p (y, oy)) i (uniq_tail _ _ Hu) Hi) as (p0 & A & B).
+    exists p0. split; [|exact B]. eapply agree_trans; [apply finalise_obj_other; exact Hne|exact A].
+Qed.
+
+Lemma load_shape p x o0 : load p x = Some o0 -> exists n h, o0 = mk_obj (pbal p x) n h.
+Proof.
+  unfold load. destruct (p_keeper p !! x) as [[n h]|]; [intros [= <-]; eauto|].
+  destruct (pbal p x =? 0); [done|]. intros [= <-]. eauto.
+Qed.
+
+Lemma arel_mk p x b n h c :
+  b = bal c -> n = nonce c -> h = code c -> suic c = false ->
+  (forall k, pslot p x k = sget (stor c) k) -> (forall k, pslot p x k = sget (comm c) k) -> canon (stor c) ->
+  arel p x (mk_obj b n h) c.
+Proof.
+  intros -> -> -> Hs H1 H2 H3. unfold arel. simpl.
+  refine (conj eq_refl (conj eq_refl (conj eq_refl (conj (eq_sym Hs) (conj _ (conj H2 (conj _ (conj _ H3)))))))).
+  - intros k. unfold oget; simpl. rewrite lookup_empty. apply H1.
+  - intros k i. simpl. rewrite lookup_empty. split; [done|]. intros [v Hv]. rewrite lookup_nil in Hv. done.
+  - intros k i Hk. simpl in Hk. rewrite lookup_empty in Hk. done.
+Qed.
+
+Definition promote (a : acct) : acct :=
+  {| bal := bal a; nonce := nonce a; code := code a; stor := stor a; comm := stor a; suic := false |}.
+
+Lemma fin_accts_lookup m x :
+  finalise_accts m !! x =
+    match m !! x with
+    | Some ac => if suic ac || acct_empty ac then None else Some (promote ac)
+    | None => None
+    end.
+Proof.
+  unfold finalise_accts. rewrite lookup_fmap.
+  destruct (m !! x) as [ac|] eqn:Hm.
+  - destruct (suic ac || acct_empty ac) eqn:E.
+    + assert (filter (fun p : addr * acct => suic p.2 = false /\ acct_empty p.2 = false) m !! x = None) as ->; [|reflexivity].
+      apply map_filter_lookup_None. right. intros ac' Hac' [H1 H2]. simpl in *.
+      rewrite Hm in Hac'. inversion Hac'; subst. rewrite H1, H2 in E. done.
+    + apply orb_false_elim in E. destruct E as [E1 E2].
+      assert (filter (fun p : addr * acct => suic p.2 = false /\ acct_empty p.2 = false) m !! x = Some ac) as ->; [|reflexivity].
+      apply map_filter_lookup_Some. split; [exact Hm|]. simpl. done.
+  - assert (filter (fun p : addr * acct => suic p.2 = false /\ acct_empty p.2 = false) m !! x = None) as ->; [|reflexivity].
+    apply map_filter_lookup_None. left. exact Hm.
+Qed.
+
+Lemma has_slots_false p x : has_slots p x = false -> forall k, pslot p x k = 0.
+Proof.
+  intros H k. unfold pslot. destruct (p_cstore p !! (x, k)) as [v|] eqn:Hk; [|reflexivity].
+  exfalso. unfold has_slots in H.
+  assert (existsb (fun e : addr * key * Z => (e.1.1 =? x)%N) (map_to_list (p_cstore p)) = true) as Hc; [|congruence].
+  apply existsb_exists. exists ((x, k), v). split; [|simpl; apply N.eqb_refl].
+  apply elem_of_list_In. apply elem_of_map_to_list. exact Hk.
+Qed.
+
+Lemma oget_clean p x o : DW o ->
+  forallb (fun kv : key * Z => kv.2 =? pslot p x kv.1) (o_dirty o) = true -> forall k, oget p x o k = pslot p x k.
+Proof.
+  intros HD H k. unfold oget. destruct (o_didx o !! k) as [i|] eqn:Hk; [|reflexivity].
+  destruct (proj1 (HD k i) Hk) as [v Hv]. rewrite Hv. simpl.
+  rewrite forallb_forall in H. assert (In (k, v) (o_dirty o)) as Hin by (apply elem_of_list_In; eapply elem_of_list_lookup_2; eauto).
+  specialize (H _ Hin). simpl in H. apply Z.eqb_eq. exact H.
+Qed.
+
+Lemma oget_agree x p p0 o k : agree_at x p p0 -> oget p0 x o k = oget p x o k.
+Proof. intros A. unfold oget. destruct (o_didx o !! k); [reflexivity|apply agree_pslot; exact A]. Qed.
+Lemma OW_agree x p p0 o : agree_at x p p0 -> OW p x o -> OW p0 x o.
+Proof. intros A H k i Hk. rewrite (agree_pslot _ _ _ k A). apply H. exact Hk. Qed.
+Lemma pbal_agree x p p0 : agree_at x p p0 -> pbal p0 x = pbal p x.
+Proof. intros (_ & B & _). unfold pbal. rewrite B. reflexivity. Qed.
+
+Lemma fin_addr a s x : Inv a s ->
+  trig_residue a Finalise = false -> fin_okb a = true ->
+  let p' := fold_left (finalise_obj (dirty_set a)) (a_objs a) (a_pers a) in
+  orel p' x (load p' x) (finalise_accts (accts (cur s)) !! x) /\
+  (load p' x = None -> forall k, pslot p' x k = 0) /\
+  (forall o', load p' x = Some o' -> obj_empty o' = false).
+Proof.
+  intros HI Htr Hfin p'. set (p := a_pers a) in *. set (D := dirty_set a) in *.
+  pose proof (i_wo _ _ HI) as HW. pose proof (proj1 (i_crel _ _ HI) x) as Hx. fold p in Hx.
+  rewrite fin_accts_lookup.
+  destruct (a_oidx a !! x) as [i|] eqn:Hix.
+  - (* a live object *)
+    destruct (look_live a x i HW Hix) as (o & Hoi & Hlx). rewrite Hlx in Hx. unfold orel in Hx.
+    destruct (accts (cur s) !! x) as [ac|] eqn:Hac; [|done].
+    pose proof Hx as (Ab & An & Ah & As & Hst & Hcm & HD & HO & Hcan).
+    destruct (fin_fold_present D x o (a_objs a) p i (WOl_uniq _ _ HW) Hoi) as (p0 & A0 & A1). fold p' in A1.
+    assert (In (x, o) (a_objs a)) as Hin by (apply elem_of_list_In; eapply elem_of_list_lookup_2; eauto).
+    assert (doomed a (x, o) && (negb (pbal p x =? 0) || has_slots p x) = false) as Hres.
+    { simpl in Htr. destruct (doomed a (x, o) && (negb (pbal p x =? 0) || has_slots p x)) eqn:E; [|reflexivity].
+      assert (existsb (fun xo => doomed a xo && (negb (pbal (a_pers a) xo.1 =? 0) || has_slots (a_pers a) xo.1)) (a_objs a) = true) as Hc; [|congruence].
+      apply existsb_exists. exists (x, o). split; [exact Hin|exact E]. }
+    assert ((if bool_decide (is_Some (D !! x)) then doomed a (x, o) || slots_cachedb o
+             else obj_cleanb p x o) = true) as Hok.
+    { unfold fin_okb in Hfin. rewrite forallb_forall in Hfin. exact (Hfin _ Hin). }
+    assert (acct_empty ac = obj_empty o) as Hemp by (unfold acct_empty, obj_empty; rewrite Ab, An, Ah; reflexivity).
+    unfold doomed in Hres, Hok. fold D in Hres, Hok.
+    unfold finalise_obj in A1.
+    destruct (o_suic o || bool_decide (is_Some (D !! x)) && obj_empty o) eqn:Hdoom.
+    + (* removed *)
+      simpl in Hres. apply orb_false_elim in Hres. destruct Hres as [Hb Hs]. apply negb_false_iff, Z.eqb_eq in Hb.
+      pose proof (has_slots_false _ _ Hs) as Hz.
+      assert (load p' x = None) as Hld.
+      { rewrite (agree_load _ _ _ A1). unfold load; simpl. rewrite lookup_delete.
+        assert (pbal {| p_keeper := delete x (p_keeper p0); p_bal := p_bal p0; p_cstore := p_cstore p0; p_codes := p_codes p0 |} x = 0) as ->; [|reflexivity].
+        unfold pbal; simpl. fold (pbal p0 x). rewrite (pbal_agree _ _ _ A0). exact Hb. }
+      rewrite Hld. split; [|split; [|intros o' Hc; done]].
+      * assert (suic ac || acct_empty ac = true) as ->; [|exact I].
+        rewrite <- As, Hemp. destruct (o_suic o); [reflexivity|]. simpl in *.
+        apply andb_prop in Hdoom. destruct Hdoom as [_ ->]. reflexivity.
+      * intros _ k. rewrite (agree_pslot _ _ _ k A1). unfold pslot; simpl. fold (pslot p0 x k).
+        rewrite (agree_pslot _ _ _ k A0). apply Hz.
+    + apply orb_false_elim in Hdoom. destruct Hdoom as [Hsu Hde].
+      destruct (bool_decide (is_Some (D !! x))) eqn:Hdirty.
+      * (* written back *)
+        simpl in Hde. simpl in Hok.
+        destruct (commit_state_spec x o p0 HD (OW_agree _ _ _ _ A0 HO) Hok) as (C1 & C2 & C3 & C4 & C5).
+        set (q := {| p_keeper := <[x := (o_nonce o, o_hash o)]> (p_keeper (commit_state x o p0));
+                     p_bal := <[x := o_bal o]> (p_bal (commit_state x o p0));
+                     p_cstore := p_cstore (commit_state x o p0);
+                     p_codes := if negb (o_cache o =? 0)%N && o_dirtycode o then <[o_hash o := tt]> (p_codes (commit_state x o p0))
+                                else p_codes (commit_state x o p0) |}) in *.
+        assert (load p' x = Some (mk_obj (o_bal o) (o_nonce o) (o_hash o))) as Hld.
+        { rewrite (agree_load _ _ _ A1). unfold load, pbal; simpl. rewrite !lookup_insert. reflexivity. }
+        assert (forall k, pslot p' x k = sget (stor ac) k) as Hsl.
+        { intros k. rewrite (agree_pslot _ _ _ k A1). unfold pslot; simpl. fold (pslot (commit_state x o p0) x k).
+          rewrite C5, (oget_agree _ _ _ _ k A0). apply Hst. }
+        rewrite Hld. rewrite <- As, Hsu, Hemp, Hde. simpl.
+        split; [|split; [done|]].
+        -- apply arel_mk; simpl; try assumption; try reflexivity.
+        -- intros o' [= <-]. exact Hde.
+      * (* not marked dirty: clean by the side condition *)
+        unfold obj_cleanb in Hok. destruct (load p x) as [o0|] eqn:Hl0; [|done].
+        apply andb_prop in Hok. destruct Hok as [Hok Hcl]. apply andb_prop in Hok. destruct Hok as [Hok _].
+        apply andb_prop in Hok. destruct Hok as [Hok Eh]. apply andb_prop in Hok. destruct Hok as [Eb En].
+        apply Z.eqb_eq in Eb, En. apply N.eqb_eq in Eh.
+        assert (agree_at x p p') as A2 by (eapply agree_trans; eauto).
+        rewrite (agree_load _ _ _ A2), Hl0.
+        pose proof (i_ne _ _ HI x o0 Hl0) as Hne0.
+        assert (obj_empty o = false) as Hne. { unfold obj_empty in *. rewrite Eb, En, Eh. exact Hne0. }
+        rewrite <- As, Hsu, Hemp, Hne. simpl.
+        destruct (load_shape _ _ _ Hl0) as (n0 & h0 & ->). simpl in *.
+        split; [|split; [done|intros o' [= <-]; exact Hne0]].
+        apply arel_mk; simpl; try congruence.
+        -- intros k. rewrite (agree_pslot _ _ _ k A2). rewrite <- (oget_clean p x o HD Hcl k). apply Hst.
+        -- intros k. rewrite (agree_pslot _ _ _ k A2). rewrite <- (oget_clean p x o HD Hcl k). apply Hst.
+  - (* not live *)
+    assert (look a x = load p x) as Hlx by (unfold look; rewrite Hix; reflexivity). rewrite Hlx in Hx.
+    assert (agree_at x p p') as A2.
+    { apply fin_fold_absent. intros i o Hc. assert (a_oidx a !! x = Some i) by (apply HW; eauto). congruence. }
+    rewrite (agree_load _ _ _ A2).
+    destruct (load p x) as [o0|] eqn:Hl0; unfold orel in Hx.
+    + destruct (accts (cur s) !! x) as [ac|] eqn:Hac; [|done].
+      pose proof Hx as (Ab & An & Ah & As & Hst & Hcm & HD & HO & Hcan).
+      pose proof (i_ne _ _ HI x o0 Hl0) as Hne0.
+      assert (acct_empty ac = obj_empty o0) as Hemp by (unfold acct_empty, obj_empty; rewrite Ab, An, Ah; reflexivity).
+      destruct (load_shape _ _ _ Hl0) as (n0 & h0 & ->). simpl in *.
+      rewrite <- As, Hemp, Hne0. simpl.
+      split; [|split; [done|intros o' [= <-]; exact Hne0]].
+      apply arel_mk; simpl; try congruence.
+      * intros k. rewrite (agree_pslot _ _ _ k A2). rewrite <- Hst. unfold oget; simpl. rewrite lookup_empty. reflexivity.
+      * intros k. rewrite (agree_pslot _ _ _ k A2). rewrite <- Hst. unfold oget; simpl. rewrite lookup_empty. reflexivity.
+    + destruct (accts (cur s) !! x) as [ac|] eqn:Hac; [done|].
+      split; [exact I|]. split; [|intros o' Hc; done].
+      intros _ k. rewrite (agree_pslot _ _ _ k A2). apply (i_nr _ _ HI). exact Hl0.
+Qed.
+
+Lemma inv_finalise a s (block : bool) c' nid :
+  Inv a s -> trig_residue a Finalise = false -> fin_okb a = true ->
+  accts c' = finalise_accts (accts (cur s)) -> refund c' = 0 ->
+  nid = (if block then 0 else nextid s) ->
+  Inv (a_finalise a block) {| cur := c'; snaps := []; nextid := nid |}.
+Proof.
+  intros HI Htr Hfin Hacc Href Hnid.
+  pose proof (fun x => fin_addr a s x HI Htr Hfin) as Hall. cbv zeta in Hall.
+  split.
+  - intros x i. simpl. rewrite lookup_empty. split; [done|]. intros [o Ho]. rewrite lookup_nil in Ho. done.
+  - intros x i. simpl. rewrite lookup_empty. done.
+  - intros x Hl k. exact (proj1 (proj2 (Hall x)) Hl k).
+  - split; [|simpl; rewrite Href; reflexivity]. intros x. unfold look; simpl. rewrite lookup_empty.
+    rewrite Hacc. exact (proj1 (Hall x)).
+  - subst nid. destruct block; [reflexivity|exact (i_id _ _ HI)].
+  - split; [constructor|]. intros i j r1 r2 H. simpl in H. rewrite lookup_nil in H. done.
+  - constructor.
+  - intros x o Hl. exact (proj2 (proj2 (Hall x)) o Hl).
+Qed.
+
+Lemma step_class_fin a o : step_ok a o = true -> (o = Finalise \/ o = BlockCommit) ->
+  trig_residue a Finalise = false /\ fin_okb a = true.
+Proof.
+  unfold step_ok, step_class. intros H Ho.
+  destruct (trig_residue a o) eqn:E1; [done|]. destruct (trig_create_over a o); [done|].
+  destruct (trig_stale a o); [done|]. destruct (pre_violated a o); [done|].
+  destruct (fin_unchecked a o) eqn:E5; [done|].
+  destruct Ho as [-> | ->]; simpl in E1, E5; apply negb_false_iff in E5; split; assumption.
+Qed.
+
+Lemma sim_Finalise a s : Inv a s -> step_ok a Finalise = true -> sim a s Finalise.
+Proof.
+  intros HI Hok. destruct (step_class_fin a Finalise Hok (or_introl eq_refl)) as [Htr Hfin].
+  unfold sim, astep. simpl. eexists _, _, _. split; [reflexivity|]. split; [reflexivity|].
+  apply (inv_finalise a s false); try assumption; reflexivity.
+Qed.
+Lemma sim_BlockCommit a s : Inv a s -> step_ok a BlockCommit = true -> sim a s BlockCommit.
+Proof.
+  intros HI Hok. destruct (step_class_fin a BlockCommit Hok (or_intror eq_refl)) as [Htr Hfin].
+  unfold sim, astep. simpl. eexists _, _, _. split; [reflexivity|]. split; [reflexivity|].
+  apply (inv_finalise a s true); try assumption; reflexivity.
 Qed.
 
 (* ---- every operation of the proved core, every sequence, every client ---------------------- *)
@@ -1159,7 +1532,7 @@ Qed.
 Lemma step_sim a s o : Inv a s -> pstep_ok a o = true -> sim a s o.
 Proof.
   intros HI Hok. unfold pstep_ok in Hok. apply andb_prop in Hok. destruct Hok as [Hok Hfine].
-  apply andb_prop in Hok. destruct Hok as [Hok Hcore]. apply step_ok_pre in Hok.
+  apply andb_prop in Hok. destruct Hok as [Hok Hcore]. pose proof Hok as Hsok. apply step_ok_pre in Hok.
   destruct o; simpl in Hcore; try done.
   - apply simo_sim, sim_SubBalance; assumption.
   - apply simo_sim, sim_AddBalance; assumption.
@@ -1178,6 +1551,8 @@ Proof.
   - apply simo_sim, sim_Empty; assumption.
   - apply sim_Snapshot; assumption.
   - apply sim_Revert; assumption.
+  - apply sim_Finalise; assumption.
+  - apply sim_BlockCommit; assumption.
 Qed.
 
 Lemma bisim ops : forall a s, Inv a s -> pguardedb a ops = true ->
@@ -1214,4 +1589,5 @@ Proof.
   - reflexivity.
   - split; [constructor|]. intros i j r1 r2 H. simpl in H. rewrite lookup_nil in H. done.
   - constructor.
+  - intros x o. unfold load, pbal; simpl. rewrite !lookup_empty. simpl. done.
 Qed.
